@@ -287,8 +287,9 @@ func (index *uniqueIndex) Label() string {
 }
 
 func (index *uniqueIndex) Read(tx *bbolt.Tx, val []byte) []byte {
-	indexBucket := index.getIndexBucket(tx)
-	if indexBucket.Err != nil {
+	// reading must not create the index bucket
+	indexBucket := Path(tx, index.indexPath...)
+	if indexBucket == nil || indexBucket.Err != nil {
 		return nil
 	}
 	return indexBucket.Get(val)
@@ -365,31 +366,34 @@ func (index *uniqueIndex) ProcessBeforeDelete(ctx *IndexingContext) {
 
 func (index *uniqueIndex) CheckIntegrity(ctx MutateContext, fix bool, errorSink func(error, bool)) error {
 	tx := ctx.Tx()
-	indexBucket := index.getIndexBucket(tx)
-	cursor := indexBucket.Cursor()
 	store := index.symbol.GetStore()
-	for key, val := cursor.First(); key != nil; key, val = cursor.Next() {
-		if !store.IsEntityPresent(tx, string(val)) {
-			if fix {
-				if err := cursor.Delete(); err != nil {
-					return err
-				}
-			}
-			errorSink(errors.Errorf("unique index %v.%v references %v for value %v, which doesn't exist",
-				store.GetEntityType(), index.symbol.GetName(), string(val), string(key)), fix)
-		} else {
-			_, fieldVal := index.symbol.Eval(tx, val)
-			if !bytes.Equal(key, fieldVal) {
+	// If the index bucket doesn't exist there are no index entries to verify. Don't create it here, the missing entries
+	// are reported by the entity scan below, which also re-creates them if we're fixing
+	if indexBucket := Path(tx, index.indexPath...); indexBucket != nil {
+		cursor := indexBucket.Cursor()
+		for key, val := cursor.First(); key != nil; key, val = cursor.Next() {
+			if !store.IsEntityPresent(tx, string(val)) {
 				if fix {
-					// just delete it here. It may be a duplicate. If it's not a duplicate, the correct value
-					// will be created when we scan the other side
 					if err := cursor.Delete(); err != nil {
 						return err
 					}
 				}
+				errorSink(errors.Errorf("unique index %v.%v references %v for value %v, which doesn't exist",
+					store.GetEntityType(), index.symbol.GetName(), string(val), string(key)), fix)
+			} else {
+				_, fieldVal := index.symbol.Eval(tx, val)
+				if !bytes.Equal(key, fieldVal) {
+					if fix {
+						// just delete it here. It may be a duplicate. If it's not a duplicate, the correct value
+						// will be created when we scan the other side
+						if err := cursor.Delete(); err != nil {
+							return err
+						}
+					}
 
-				errorSink(errors.Errorf("unique index %v.%v references %v for value %v which should be %v",
-					store.GetEntityType(), index.symbol.GetName(), string(val), string(key), string(fieldVal)), fix)
+					errorSink(errors.Errorf("unique index %v.%v references %v for value %v which should be %v",
+						store.GetEntityType(), index.symbol.GetName(), string(val), string(key), string(fieldVal)), fix)
+				}
 			}
 		}
 	}
